@@ -110,6 +110,7 @@ class Interp:
         self.created = []
         self.yields = None
         self.closures = {}
+        self.classes = {}       # name -> ClassDef of module classes that may be instantiated (model objects with their own methods)
         self.base = None        # module-level constants / models given to call(): visible in module-level functions called from here
         self.exact = exact      # exact: follow return / raise / continue precisely, give up (Unknowable) on anything unknown
         self.result = None
@@ -309,6 +310,22 @@ class Interp:
                 o = Obj(cn, tuple(args), {k.arg: self.ev(k.value) for k in e.keywords if k.arg}, len(self.created), getattr(e, "lineno", 0))
                 self.created.append(o)
                 return o
+        if isinstance(e.func, ast.Name) and e.func.id in self.classes and e.func.id not in self.env:
+            # a class of the interpreted module: a model object whose methods are the class's own
+            cdef = self.classes[e.func.id]
+            obj = Key(__cls__=(cdef.name,), __classdef__=cdef)
+            init = [f for f in cdef.body if isinstance(f, ast.FunctionDef) and f.name == "__init__"]
+            if init:
+                r = self._method(obj, init[0], e)
+                if r is UNKNOWN:
+                    return UNKNOWN
+            return obj
+        if isinstance(e.func, ast.Attribute) and self.classes:
+            recv0 = self.ev(e.func.value)
+            if isinstance(recv0, NS) and e.func.attr not in recv0 and recv0.get("__classdef__") is not None:
+                meth = [f for f in recv0["__classdef__"].body if isinstance(f, ast.FunctionDef) and f.name == e.func.attr]
+                if meth:
+                    return self._method(recv0, meth[0], e)
         native = None
         if isinstance(e.func, ast.Name) and isinstance(self.env.get(e.func.id), Native):
             native = self.env[e.func.id]
@@ -426,7 +443,8 @@ class Interp:
             simple = {"len": len, "sorted": sorted, "list": list, "tuple": tuple, "set": set, "dict": dict, "reversed": lambda x: list(reversed(x)),
                       "enumerate": lambda *a: list(enumerate(*a)), "zip": lambda *a: list(zip(*a)), "range": lambda *a: list(range(*a)),
                       "int": int, "float": float, "str": str, "bool": bool, "abs": abs, "min": min, "max": max, "sum": sum,
-                      "any": any, "all": all, "round": round, "divmod": divmod, "frozenset": frozenset}
+                      "any": any, "all": all, "round": round, "divmod": divmod, "frozenset": frozenset,
+                      "combinations": lambda xs, r: list(__import__("itertools").combinations(list(xs), r))}
             if fn == "len" and len(args) == 1 and isinstance(args[0], NS):
                 return args[0].get("__len__", U)
             if fn == "getattr" and len(args) in (2, 3) and isinstance(args[0], NS) and isinstance(args[1], str):
@@ -481,6 +499,34 @@ class Interp:
                 if isinstance(recv, ty) and meth in ms:
                     return getattr(recv, meth)(*args)        # recv is the object stored in env: mutated in place
         return U
+
+    def _method(self, obj, fdef, e):
+        """interpret method `fdef` of a model object on the arguments of call node `e`"""
+        params = [a.arg for a in fdef.args.posonlyargs + fdef.args.args]
+        bound = {params[0]: obj}
+        pos = []
+        for a in e.args:
+            if isinstance(a, ast.Starred):
+                return UNKNOWN
+            pos.append(self.ev(a))
+        bound.update(dict(zip(params[1:], pos)))
+        for k in e.keywords:
+            if k.arg is None:
+                return UNKNOWN
+            bound[k.arg] = self.ev(k.value)
+        if any(v is UNKNOWN for v in bound.values()):
+            return UNKNOWN
+        try:
+            r = call(fdef, bound, consts=self.base, funcs=self.funcs, budget=self, classes=self.classes)
+        except Unknowable:
+            if self.exact:
+                raise
+            return UNKNOWN
+        if r[0] == "raise":
+            if self.exact:
+                raise Raised(fdef.name)
+            return UNKNOWN
+        return r[1]
 
     # ---- statements
     def _bind(self, target, value):
@@ -574,7 +620,13 @@ class Interp:
                     else:
                         self.env[st.target.id] = v
                 else:
-                    self.ev(st.value)       # constructor calls on the right-hand side are still recorded
+                    rhs = self.ev(st.value)       # constructor calls on the right-hand side are still recorded
+                    cur = self.ev(st.target) if isinstance(st.target, (ast.Attribute, ast.Subscript)) else UNKNOWN
+                    if cur is not UNKNOWN and rhs is not UNKNOWN and isinstance(cur, (int, float, str, tuple)) and not isinstance(cur, bool):
+                        # x.n += 1 / d[k] += "s": an immutable value replaced in its container
+                        v = self.ev(ast.BinOp(left=st.target, op=st.op, right=st.value))
+                        self._store(st.target, v)
+                        continue
                     obj = self.ev(st.target.value) if isinstance(st.target, ast.Attribute) else UNKNOWN
                     if isinstance(obj, NS):
                         if st.target.attr not in obj.frozen:
@@ -727,7 +779,7 @@ import math as _math
 MATH = {"floor": _math.floor, "ceil": _math.ceil, "log2": _math.log2, "sqrt": _math.sqrt, "gcd": _math.gcd, "isclose": _math.isclose}
 
 
-def call(fn, args, consts=None, funcs=None, budget=None):
+def call(fn, args, consts=None, funcs=None, budget=None, classes=None):
     """Interpret function node `fn` exactly on constant arguments {param: value}: ("return", value) | ("raise", None); raises
     Unknowable when the outcome depends on something that is not a compile-time constant."""
     env = dict(consts or {})
@@ -736,6 +788,7 @@ def call(fn, args, consts=None, funcs=None, budget=None):
     defaults = dict(zip(names[len(names) - len(a.defaults):], a.defaults))
     it = Interp(env, exact=True, funcs=funcs)
     it.base = consts
+    it.classes = classes or (budget.classes if budget is not None else {})
     is_gen = any(isinstance(x, (ast.Yield, ast.YieldFrom)) for x in ast.walk(fn))
     if is_gen:
         it.yields = []
